@@ -497,8 +497,18 @@ fn run_field_styled(
             copt(observed.map(|l| rle2(&l)))
         ),
         Some(_) => {
-            // escape sequences: every character 0 columns (char_cols), as C12_styled_fits assumes
-            let z = |t: &str| char_cols(t).unwrap_or_else(|| t.chars().map(|c| (c, 0)).collect());
+            // the style's texts with their per-character column widths as console measures them
+            // (char_cols: 0 inside an ANSI sequence, measure_text_width of the character elsewhere -
+            // nothing is forced to 0): `c12_check` evaluates the hypothesis of C12_styled_fits,
+            // cols spre = cols spost = 0, on them, so a style text with columns is a Coq mismatch too
+            let (zpre, zpost) = match (char_cols(&spre), char_cols(&spost)) {
+                (Some(a), Some(b)) => (a, b),
+                _ => {
+                    s.count("skipped:nonadditive-width");
+                    s.oracle_only(desc, false);
+                    return;
+                }
+            };
             if mtw(&spre) + mtw(&spost) != 0 {
                 s.fail("styled-wrapper", format!("the style's texts {spre:?} / {spost:?} are not zero columns wide"), desc.clone());
             }
@@ -510,8 +520,8 @@ fn run_field_styled(
                 copt(w.map(|x| x.to_string())),
                 al.coq(),
                 cbool(tr),
-                rle3(&z(&spre)),
-                rle3(&z(&spost)),
+                rle3(&zpre),
+                rle3(&zpost),
                 copt(observed.map(|l| rle2(&l)))
             )
         }
